@@ -29,7 +29,7 @@ BOUNDS = {"quick": {"max_nodes": 3, "max_dev": 2, "plus": "all 4-node DAGs with 
 CAP_S = {"quick": 150, "thorough": 2400}
 
 EDGE = ["none", "req", "g1", "g2", "opt"]
-ALTS = ["none", "skip", "error", "disabled", "seed", "seednone"]
+ALTS = ["none", "skip", "error", "disabled", "seed", "seednone", "seedzero"]
 
 
 def shapes(n, edge_kinds=None):
@@ -59,6 +59,8 @@ def shape_to_nodes(n, shape, devs, t="plain"):
             nd["seed"] = True
         elif d == "seednone":
             nd["seed"] = "none"
+        elif d == "seedzero":
+            nd["seed"] = "zero"              # a supplied value that is falsy (0) is still a supplied value
         elif d != "value":
             nd["out"] = d
         nodes.append(nd)
@@ -89,6 +91,8 @@ def targets_for(n, tier):
     ts = [["node", i] for i in range(n)]
     ts += [["pair", i, j] for i in range(n) for j in range(i + 1, n)]
     ts += [["dict"], ["type"]]
+    # the other public evaluation entry points: one sub-graph at a time / run_all without a pool, same caller-supplied broker
+    ts += [["incr-dict"], ["all-type"]]
     # graphs that are NOT dependency-closed (hand-written dicts, group filters, popped nodes): only the keys take part
     if n == 3:
         ts += [["subdict", list(m)] for k in (1, 2) for m in itertools.combinations(range(n), k)]
@@ -97,7 +101,7 @@ def targets_for(n, tier):
         ts += [["incr-subdict-then-full", list(m)] for k in (1, 2) for m in itertools.combinations(range(n), k)]
         ts += [["run-adddep-run", i, j] for i in range(n) for j in range(n) if i != j]
     if n == 4:
-        ts = [["node", 3], ["dict"], ["pair", 2, 3]]
+        ts = [["node", 3], ["dict"], ["pair", 2, 3], ["incr-dict"]]
     return ts
 
 
@@ -140,7 +144,7 @@ def check_case(case, res=None):
             elif tgt[0] == "pair":
                 comps = [g.nodes[tgt[1]], g.nodes[tgt[2]]]
                 tix = [tgt[1], tgt[2]]
-            elif tgt[0] == "dict":
+            elif tgt[0] in ("dict", "incr-dict"):
                 comps = g.explicit_graph()
                 tix = list(range(n))
             elif tgt[0] in ("subdict", "incr-subdict-then-full"):
@@ -167,16 +171,21 @@ def check_case(case, res=None):
                 order = dr.run_order(dg)
                 if sorted(c.idx for c in order) != sorted(in_graph):
                     vio.append(("order:permutation-of-graph", sorted(in_graph), [c.idx for c in order], perm))
-            def evaluate(comps, in_graph):
+            def evaluate(comps, in_graph, engine="run"):
                 """One evaluation with a fresh broker; every invariant is judged on its own event log."""
                 nonlocal turns_total
                 del g.log[:]
                 broker = g.make_broker()
                 seeds = dict((i, broker[g.nodes[i]]) for i in range(n) if desc["nodes"][i].get("seed"))
                 try:
-                    dr.run(comps, broker)
+                    if engine == "run":
+                        dr.run(comps, broker)
+                    elif engine == "incremental":
+                        list(dr.run_incremental(comps, broker))     # (which broker object holds the results is not demanded)
+                    else:
+                        dr.run_all(comps, broker)
                 except Exception as ex:
-                    vio.append(("run:raises", "dr.run returns", repr(ex), perm))
+                    vio.append(("run:raises", "dr.%s returns" % engine, repr(ex), perm))
                     return
                 log = g.log
                 attempts = [ev[1] for ev in log if ev[0] == "attempt"]
@@ -259,7 +268,7 @@ def check_case(case, res=None):
                 finally:
                     desc["nodes"] = desc_saved
             else:
-                evaluate(comps, in_graph)
+                evaluate(comps, in_graph, {"incr-dict": "incremental", "all-type": "all"}.get(tgt[0], "run"))
                 registry_intact("evaluation")
         finally:
             g.cleanup()
